@@ -75,6 +75,13 @@ claim("C17", "Coq proof (per-member loop selects the same members in every mode;
       "Proof: for arbitrary filter / extract / path / overwrite functions, every mode acts on exactly the filtered members in listing order; listing never fails; exit status zero iff no selected member failed; permission bits are 0444 | EXEC?0111 | !RDONLY?0222 minus the umask for all attribute combinations and all 512 umasks (finite sweep). The loop model is an abstraction of process_cabinet; fnmatch, mktime and MD5 are libc / separate code. Tie and search: the binary built from the tree on generated cabinets and sets in -l / -t / -p / extract with -F, -d, -q, from every part of a set - listings, timestamps, MD5s, piped bytes, file bytes, mtimes and mode bits (against the extracted port), exit status.",
       NOTE, "4/C17")
 
+claim("C03", "Coq proof (ENCINT / entry / chunk / directory round trip for every entry list; section-0 extraction; reset-point arithmetic) + extracted model of chmd.c vs the C library on generated and damaged CHMs",
+      "Proof: the directory side of the property in full generality (every value below 2^63, every entry list, every chunk and chunk list: open() lists exactly the stored entries, user and system files separately). Partial: the compressed section is modelled (ControlData / ResetTable / SpanInfo parsing, reset-point choice, skip-then-extract through the LZX port) and tied to the C library by running both on the same files and operation sequences, but that decoding from a reset point equals decoding from the start is not a theorem. Search: generator expectations (names, sections, offsets, lengths, bytes) against open() and extract() in forward / reverse / random orders.",
+      NOTE, "4/C03")
+claim("C15", "Coq proof (compare is an order on canonical UTF-8; search_chunk refines a search over parsed entries for every density; fast_find over chains and index trees of any depth equals lookup in the listing; chunk cache transparent for every history) + extracted model vs the C library",
+      "Proof: unbounded in entries, chunk sizes, densities, index depth and lookup history; the chunk layout (wfc) and sortedness are hypotheses shown satisfiable on a sample CHM produced by the generator the checks use, and sortedness is derived for every directory of canonical UTF-8 names in increasing order. The lower-casing function is a parameter (the C library's towlower in the C locale is ASCII-only, which is what the extracted model uses). Tie and search: model (with cache) vs C on lookup sessions; every listed name, case variants, near misses, absent names in shuffled orders after open() and fast_open().",
+      NOTE, "4/C15")
+
 def main():
     props = [json.loads(l)["id"] for l in open(os.path.join(V, "properties.jsonl"))]
     # only claim what has a check module
